@@ -95,6 +95,30 @@ def run(ctx):
             leftovers(label, extra_ok=("out_new.json",))
             if r["rc"] == "timeout":
                 bad.append({"what": "plan invocation hung", "path": label})
+        # ---- stderr or stdout on a full device: messages and the report cannot be written, the clean-up still happens
+        import subprocess as _sp
+        for label, args, stdin, full in (("fullstderr quiet syntax error", ["--quiet", "report", "syntax.tjp"], None, "err"),
+                                         ("fullstderr syntax error", ["report", "syntax.tjp"], None, "err"),
+                                         ("fullstderr quiet fatal report name", ["--quiet", "report", "badname.tjp"], None, "err"),
+                                         ("fullstderr quiet success", ["--quiet", "report", names[0]], None, "err"),
+                                         ("fullstderr success stdin", ["report", "--csv"], texts[0], "err"),
+                                         ("fullstdout success", ["--quiet", "report", names[0]], None, "out"),
+                                         ("fullstdout and fullstderr", ["report", names[-1]], None, "both")):
+            if not os.path.exists("/dev/full"):
+                stats["devfull_unavailable"] += 1
+                break
+            cmd = [common.PY, "-c", "import sys; from scriptplan.cli.plan import main; sys.exit(main())"] + list(args)
+            with open("/dev/full", "w") as sink:
+                p = _sp.Popen(cmd, cwd=box.cwd, env=box.env(), stdin=_sp.PIPE if stdin is not None else _sp.DEVNULL,
+                              stdout=sink if full in ("out", "both") else _sp.DEVNULL, stderr=sink if full in ("err", "both") else _sp.DEVNULL)
+                try:
+                    p.communicate(stdin, timeout=120)
+                except _sp.TimeoutExpired:
+                    p.kill()
+                    p.communicate()
+                    bad.append({"what": "plan invocation hung", "path": label})
+            stats["path:fulldevice"] += 1
+            leftovers(label, extra_ok=("out_new.json",))
         # ---- stdout is a pipe whose reader has gone away before the report is written (plan report x.tjp | head -0)
         import subprocess
         for label, args, stdin in (("closedpipe json file", ["report", names[0]], None),
